@@ -335,6 +335,9 @@ class DefinitionsMapper:
 
             inner.attrs.extend(attrs)
 
+        # The soap header must be the first child of the envelope
+        target.attrs.sort(key=lambda attr: attr.name.lower() != "header")
+
         return target
 
     @classmethod
